@@ -41,12 +41,51 @@ K("awkward_reduce_countnonzero",
   serves=["C03", "C12", "C13"])
 
 for name in ["awkward_reduce_prod",
-             "awkward_reduce_sum_bool", "awkward_reduce_prod_bool", "awkward_reduce_min", "awkward_reduce_max",
              "awkward_reduce_sum_int32_bool_64", "awkward_reduce_sum_int64_bool_64",
              "awkward_reduce_prod_int32_bool_64", "awkward_reduce_prod_int64_bool_64"]:
     K(name,
       extents={"toptr": "outlength", "fromptr": "lenparents", "parents": "lenparents"},
       requires=[PARENTS],
+      serves=["C03", "C12", "C13"])
+
+# ---- min / max over integers (C03): the result of group p bounds every element of the group and the initial value,
+# and is one of them (the initial value alone for an empty group)
+def EXTREME(le, n):
+    return ["forall(q, 0, %s, fromptr[q] %s toptr[parents[q]])" % (n, le),
+            "forall(p, 0, outlength, identity %s toptr[p])" % le,
+            "forall(p, 0, outlength, toptr[p] == identity or exists(q, 0, %s, parents[q] == p and fromptr[q] == toptr[p]))" % n]
+
+
+for name, le in [("awkward_reduce_max", "<="), ("awkward_reduce_min", ">=")]:
+    spec_ = {"loops": {"L0": ["0 <= i", "forall(p, 0, i, toptr[p] == identity)"],
+                       "L1": ["0 <= i", "i <= lenparents"] + EXTREME(le, "i")},
+             "ensures_ok": EXTREME(le, "lenparents")}
+    K(name,
+      extents={"toptr": "outlength", "fromptr": "lenparents", "parents": "lenparents"},
+      requires=[PARENTS],
+      loops={"L0": ["0 <= i"], "L1": ["0 <= i"]}, auto_inv=False,
+      per_spec={"_int": spec_, "_uint": spec_},
+      serves=["C03", "C12", "C13"])
+
+# ---- any / all (C03): any of group p is True exactly when some element of the group is non-zero; all of group p is
+# False exactly when some element of the group is zero
+def BOOLFOLD(hit, n):
+    return ["forall(q, 0, %s, implies(fromptr[q] %s 0, toptr[parents[q]] == HITV))" % (n, hit),
+            "forall(p, 0, outlength, toptr[p] == HITV or toptr[p] == INITV)",
+            "forall(p, 0, outlength, implies(toptr[p] == HITV, exists(q, 0, %s, parents[q] == p and fromptr[q] %s 0)))" % (n, hit)]
+
+
+for name, hit, hitv, initv in [("awkward_reduce_sum_bool", "!=", "1", "0"), ("awkward_reduce_prod_bool", "==", "0", "1")]:
+    def _s(x):
+        return [t.replace("HITV", hitv).replace("INITV", initv) for t in x]
+    spec_ = {"loops": {"L0": ["0 <= i", "forall(p, 0, i, toptr[p] == %s)" % initv],
+                       "L1": ["0 <= i", "i <= lenparents"] + _s(BOOLFOLD(hit, "i"))},
+             "ensures_ok": _s(BOOLFOLD(hit, "lenparents"))}
+    K(name,
+      extents={"toptr": "outlength", "fromptr": "lenparents", "parents": "lenparents"},
+      requires=[PARENTS],
+      loops={"L0": ["0 <= i"], "L1": ["0 <= i"]}, auto_inv=False,
+      per_spec={"_int": spec_, "_uint": spec_, "_bool_bool": spec_},
       serves=["C03", "C12", "C13"])
 
 for name in ["awkward_reduce_countnonzero_complex", "awkward_reduce_sum_complex", "awkward_reduce_prod_complex",
